@@ -7,6 +7,7 @@ import Flowjaxv.Proofs.BnafLd
 import Flowjaxv.Proofs.JaxTransforms
 import Flowjaxv.Proofs.BnafGen
 import Flowjaxv.Proofs.TriangularGen
+import Flowjaxv.Proofs.NetGen
 /-!
 # C02 — the log-determinant is the log-determinant
 
@@ -627,6 +628,86 @@ theorem bnaf_logdet_full_instance (v : Fin 2 → ℝ) :
   exact ⟨J, h1, h2, by rw [h3]⟩
 
 end NetworkLogDets
+
+/-! ## generated Coupling / MaskedAutoregressive (`Gen/NetGen.lean`, regenerated from coupling.py / masked_autoregressive.py)
+
+The log-det theorems restated on the GENERATED `transform_and_log_det` / `inverse_and_log_det` (see `Props/C01.lean`,
+section `GeneratedNet`, for what is generated and the equalities `gen_coupling_eq_model` / `gen_maf_eq_model`).  The oracle
+is the Fréchet derivative of the GENERATED `transform`. -/
+section GeneratedNetLogDets
+open Masks MasksPf Nw GenNet
+
+/-- **`gen_coupling_logdet`** — for the generated `Coupling.transform` / `transform_and_log_det`: at every point `v ∈ ℝ^dim`
+where the generated forward map is differentiable, `det J = ∏_{i ≥ d} T'ᵢ ≠ 0` and the returned log-det is `log |det J|`
+(every conditioner function, split `d ≤ dim`, transformer family, `condition=None` or an array). -/
+theorem gen_coupling_logdet (self : CouplingObj ℝ) (hdn : self.untransformed_dim ≤ self.dim) (c : Option (List ℝ))
+    (v : Fin self.dim → ℝ) (J : (Fin self.dim → ℝ) →L[ℝ] (Fin self.dim → ℝ))
+    (hJ : HasFDerivAt (NetLogDet.coords self.dim fun x => Coupling.transform self x c) J v)
+    (dT : ℕ → ℝ)
+    (hd : ∀ (i : Fin self.dim), self.untransformed_dim ≤ (i : ℕ) → ∀ ps : List ℝ,
+      (reshapeRows (self.dim - self.untransformed_dim)
+        (self.conditioner ((List.ofFn v).take self.untransformed_dim ++ c.getD [])))[(i : ℕ) - self.untransformed_dim]? = some ps →
+      HasDerivAt (fun t => (self.transformer_constructor ps).fwd t ()) (dT i) (v i) ∧ dT i ≠ 0 ∧
+        ((self.transformer_constructor ps).fwdLd (v i) ()).2 = Real.log |dT i|) :
+    J.det = ∏ i : Fin self.dim, (if (i : ℕ) < self.untransformed_dim then 1 else dT i) ∧ J.det ≠ 0 ∧
+      (Coupling.transformAndLogDet self (List.ofFn v) c).2 = Real.log |J.det| := by
+  have hJ' := hJ
+  rw [show (NetLogDet.coords self.dim fun x => Coupling.transform self x c) = _ from NetGenPf.gen_coupling_coords self c] at hJ'
+  have h := NetLogDet.coupling_logdet self.untransformed_dim self.dim hdn self.conditioner self.transformer_constructor
+    (c.getD []) v J hJ' dT hd
+  have e := (NetGenPf.gen_coupling_eq_model self (List.ofFn v) c (by simp)).2.2.1
+  exact ⟨h.1, h.2.1, by rw [← h.2.2]; exact congrArg Prod.snd e⟩
+
+/-- **`gen_maf_logdet`** — for the generated `MaskedAutoregressive.transform` / `transform_and_log_det` on the object of
+any well-shaped masked network: `det J = ∏ᵢ T'ᵢ ≠ 0` and the returned log-det is `log |det J|`. -/
+theorem gen_maf_logdet (N : MafNet ℝ) (hN : N.WellShaped) (tf : List ℝ → Bij ℝ Unit ℝ) (c : Option (List ℝ))
+    (v : Fin N.dim → ℝ) (J : (Fin N.dim → ℝ) →L[ℝ] (Fin N.dim → ℝ))
+    (hJ : HasFDerivAt (NetLogDet.coords N.dim fun x => Maf.transform (MafObj.ofNet N tf) x c) J v)
+    (d : Fin N.dim → ℝ)
+    (hd : ∀ (i : Fin N.dim) (ps : List ℝ), (N.params (List.ofFn v) (c.getD []))[(i : ℕ)]? = some ps →
+      HasDerivAt (fun t => (tf ps).fwd t ()) (d i) (v i) ∧ d i ≠ 0 ∧
+        ((tf ps).fwdLd (v i) ()).2 = Real.log |d i|) :
+    J.det = ∏ i, d i ∧ J.det ≠ 0 ∧ (Maf.transformAndLogDet (MafObj.ofNet N tf) (List.ofFn v) c).2 = Real.log |J.det| := by
+  have hJ' := hJ
+  rw [show (NetLogDet.coords N.dim fun x => Maf.transform (MafObj.ofNet N tf) x c) = _ from NetGenPf.gen_maf_coords N tf c] at hJ'
+  have h := NetLogDet.maf_logdet N hN tf (c.getD []) v J hJ' d hd
+  have e := (NetGenPf.gen_maf_eq_model N tf (List.ofFn v) c (by simp)).2.2.1
+  exact ⟨h.1, h.2.1, by rw [← h.2.2]; exact congrArg Prod.snd e⟩
+
+/-- generated `Coupling.inverse_and_log_det(transform(x))[1] = -transform_and_log_det(x)[1]` -/
+theorem gen_coupling_ld_antisym (self : CouplingObj ℝ) (D₁ : Set ℝ)
+    (htf : ∀ ps, (self.transformer_constructor ps).LdAntisym D₁) :
+    (Coupling.toBij self).LdAntisym {x | x.length = self.dim ∧ ∀ t ∈ x.drop self.untransformed_dim, t ∈ D₁} := by
+  intro x hx c
+  have e := NetGenPf.gen_coupling_eq_model self x c hx.1
+  have hlen : ((couplingBij self.untransformed_dim self.conditioner self.transformer_constructor).fwd x (c.getD [])).length
+      = self.dim := (NetLawful.coupling_length' _ _ _ x _).trans hx.1
+  have e' := NetGenPf.gen_coupling_eq_model self _ c hlen
+  rw [e.1, e'.2.2.2, e.2.2.1]
+  exact NetLogDet.coupling_ld_antisym self.untransformed_dim self.conditioner self.transformer_constructor D₁ htf x hx.2 _
+
+/-- generated `MaskedAutoregressive.inverse_and_log_det`: minus the forward value at the preimage -/
+theorem gen_maf_ld_antisym (N : MafNet ℝ) (hN : N.WellShaped) (tf : List ℝ → Bij ℝ Unit ℝ) (D₁ E₁ : Set ℝ)
+    (htf : ∀ ps, (tf ps).Lawful D₁ E₁) :
+    (Maf.toBij (MafObj.ofNet N tf)).LdAntisym {x | x.length = N.dim ∧ ∀ t ∈ x, t ∈ D₁} := by
+  intro x hx c
+  have e := NetGenPf.gen_maf_eq_model N tf x c hx.1
+  have hlen : ((mafBij N tf).fwd x (c.getD [])).length = N.dim := NetLawful.transform_length N _ x _ hx.1
+  have e' := NetGenPf.gen_maf_eq_model N tf _ c hlen
+  rw [e.1, e'.2.2.2, e.2.2.1]
+  exact NetLogDet.maf_ld_antisym N hN tf D₁ E₁ htf x hx _
+
+/-- non-vacuity by kernel evaluation at `ℤ` (shift transformers: log-det 0): the generated `inverse_and_log_det` at the
+image returns minus the generated forward log-det, coupling (conditional) and MAF -/
+theorem gen_net_logdet_instance :
+    (Coupling.inverseAndLogDet NetGenPf.couplingExampleZ (Coupling.transform NetGenPf.couplingExampleZ [2, 5, 7] (some [3])) (some [3])).2
+      = -(Coupling.transformAndLogDet NetGenPf.couplingExampleZ [2, 5, 7] (some [3])).2 ∧
+    (Maf.inverseAndLogDet (MafObj.ofNet NetGenPf.mafExampleZ NetGenPf.shiftFamilyZ)
+        (Maf.transform (MafObj.ofNet NetGenPf.mafExampleZ NetGenPf.shiftFamilyZ) [3, 4] none) none)
+      = ([3, 4], -(Maf.transformAndLogDet (MafObj.ofNet NetGenPf.mafExampleZ NetGenPf.shiftFamilyZ) [3, 4] none).2) := by
+  decide
+
+end GeneratedNetLogDets
 /-! ## ===== END network bijections ===== -/
 
 /-! ## Scan, REGENERATED (`Gen/JaxTransforms.lean`; meanings of `lax.scan` / `eqx.partition` / `eqx.combine`: `Model/JaxTrWorld.lean`) -/
